@@ -15,7 +15,7 @@ ASSUMPTIONS = ["reference renderer/parser vf/ref/asm.py", "opcode names are the 
 NSHARDS = {"quick": 32, "thorough": 64}
 BUDGET_S = {"quick": 200, "thorough": 1800}
 MIN_HITS = {
-    'quick': {"exh2": 71442, "grammar": 845, "ws": 1396, "xasm": 79455, "digit_push": 34805, "reject_case": 744, "accept_case": 215, "conditional": 25847},
+    'quick': {"exh2": 71442, "grammar": 845, "ws": 1396, "xasm": 79455, "digit_push": 34805, "reject_case": 1410, "accept_case": 251, "conditional": 25847},
     'thorough': {"exh2": 85730, "grammar": 768051, "ws": 1302760, "xasm": 862383, "digit_push": 322095, "reject_case": 661180, "accept_case": 260419, "conditional": 539980, "push>=65536": 21370},
 }
 SEPS = [" ", "  ", "     ", " \n ", " \r\n ", " \n\n ", " \t ", "\n ", " \n", " \r\n", "\t ",
